@@ -9,6 +9,8 @@ switches to stay away from the shapes (counted as excluded_known)."""
 
 from __future__ import annotations
 
+import re
+
 from . import c17_analysis as A
 
 LINE_START_PY = A.KEYWORDS | {"True", "False", "None", "match", "case", "type"}
@@ -113,6 +115,9 @@ def edit_finding(d):
             return "C17-F10"
         if rule == "after-colon" and shape == "insert" and nxt is not None and nxt.string == "{":
             return "C17-F11"
+        if rule == "retokenised" and (re.fullmatch(r"(\{[ \t]+)+\{", d["removed"]) and d["inserted"] == d["removed"].replace(" ", "").replace("\t", "")
+                                       or re.fullmatch(r"(\}[ \t]+)+\}", d["removed"]) and d["inserted"] == d["removed"].replace(" ", "").replace("\t", "")):
+            return "C17-F10"        # `{ {` glued to `{{`: the text now tokenises as an escaped brace
         if _selfdoc_gap(d):
             return "C17-F12"
         return None
